@@ -208,5 +208,7 @@ TableObs == [rows |-> [i \in Rows |-> <<Gof(rows[i]), Yof(rows[i]), Cof(rows[i])
 \* usable instances for the reductions: at least two groups and both labels present
 Usable == /\ Cardinality(GroupsPresent) >= 2 /\ (\E i \in Rows : Yof(rows[i]) = 1) /\ (\E i \in Rows : Yof(rows[i]) = 0)
 EmitInv == (Emit /\ rows # <<>> /\ MyShard) =>
-              IF Mode = "table" THEN (Usable => PrintT(ToJson(TableObs))) ELSE PrintT(ToJson(ObsMoments))
+              IF Mode = "table" THEN (Usable => PrintT(ToJson(TableObs)))
+              ELSE IF Mode = "table_all" THEN ((Cardinality(GroupsPresent) >= 2) => PrintT(ToJson(TableObs)))      \* also data with a single label value
+              ELSE PrintT(ToJson(ObsMoments))
 =============================================================================
